@@ -184,11 +184,9 @@ Section InterpFacts.
       + eapply keeps_trans; eauto.
   Qed.
 
-  Lemma construct_grows : forall c kw h h' res, construct W rec c kw h = (h', res) -> grows h h'.
+  Lemma construct_body_grows : forall c sch m h h' res, construct_body W rec c sch m h = (h', res) -> grows h h'.
   Proof.
-    unfold construct. intros c kw h h' res H.
-    destruct (lookup c (classes W)) as [sch|]; [|leaf].
-    destruct (mapping_entries h kw) as [m|]; [|leaf].
+    unfold construct_body. intros c sch m h h' res H.
     match type of H with (let (_, _) := alloc ?hh ?nn in _) = _ => destruct (alloc hh nn) as [h1 s] eqn:Ea end.
     assert (Hs : length h <= s) by (rewrite (alloc_loc _ _ _ _ Ea); lia).
     assert (G1 := alloc_grows _ _ _ _ Ea).
@@ -209,6 +207,24 @@ Section InterpFacts.
         eapply wrote_keeps; [|eapply update_items_wrote]; eauto.
     - match goal with |- keeps _ _ (match ?x with _ => _ end) => destruct x as [hu|] eqn:Eu end; [|apply keeps_refl].
       eapply wrote_keeps; [|eapply update_items_wrote]; eauto.
+  Qed.
+
+  Lemma construct_grows : forall c kw h h' res, construct W rec c kw h = (h', res) -> grows h h'.
+  Proof.
+    unfold construct. intros c kw h h' res H.
+    destruct (lookup c (classes W)) as [sch|]; [|leaf].
+    destruct (mapping_entries h kw) as [m|]; [|leaf].
+    destruct (lookup c (defn_classes W)) as [table|]; [|eapply construct_body_grows; eauto].
+    destruct (assoc (u "definition_type") m) as [dt|]; [|eapply construct_body_grows; eauto].
+    destruct (assoc (u "definition") m) as [dv|]; [|eapply construct_body_grows; eauto].
+    match type of H with (match ?x with _ => _ end) = _ => destruct x as [mc|] end; [|leaf].
+    match type of H with (if ?x then _ else _) = _ => destruct x end; [eapply construct_body_grows; eauto|].
+    unfold bindv in H.
+    destruct (get_dict dv h) as [h0 r0] eqn:Eg. assert (G := get_dict_grows _ _ _ _ Eg).
+    destruct r0; try leaf.
+    destruct (rec (QConstruct mc v) h0) as [h1 r1] eqn:Er. assert (G1 := Hrec _ _ _ _ Er).
+    destruct r1; try (leaf; eapply grows_trans; eauto; fail).
+    eapply grows_trans; [exact G|]. eapply grows_trans; [exact G1|]. eapply construct_body_grows; eauto.
   Qed.
 
   Lemma parse_dict_grows : forall v ver ac h h' res, parse_dict W rec v ver ac h = (h', res) -> grows h h'.
